@@ -241,7 +241,7 @@ P('C12', claimed=True, level='proof',
   technique='contract-based deductive verification: class invariants + two-call lemma functions over the real method bodies, z3')
 
 P('C13', claimed=True, level='other',
-  contracts=['seq_valuepatterns', 'seq_listpatterns', 'seq_filterpatterns'], drivers=['vf.drivers.C13'],
+  contracts=['seq_valuepatterns', 'seq_listpatterns', 'seq_filterpatterns', 'seq_oppatterns'], drivers=['vf.drivers.C13'],
   level_text=('Generator bodies under contract with `yield` / `yield from` as ghost trace events and per-pass '
               'obligations (the inductive step of the denotation): Pseries/Pgeom (first value = start, each '
               'pass draws the step once, yields the current value, next = current (+|*) step, quiet end on '
@@ -282,12 +282,17 @@ P('C14', claimed=True, level='other', contracts=['seq_event_keys'], drivers=['vf
               'Modifier-only events are left unspecified.'))
 
 P('C15', claimed=True, level='other',
-  contracts=['base_builtins', 'base_builtins_wrappers', 'synth_specialindex'], drivers=['vf.drivers.C15'],
+  contracts=['base_builtins', 'base_builtins_wrappers', 'synth_specialindex', 'seq_oppatterns'], drivers=['vf.drivers.C15'],
   level_text=('Numeric range/inverse laws of mod, div, wrap, fold, clip, round, roundup, trunc and the '
               'midi/cps, ratio/midi, oct/cps, amp/db pairs are postconditions on the real kernels and are '
               'discharged for all int/float arguments (one case per type assignment; floats as reals); the '
               'opcode tables and the selector each operator method passes are exhaustive finite obligations. '
-              'Lifting over functions/streams/patterns/lists/operands is decided by a bounded run-time '
+              'Lifting over patterns: Punop/Pbinop/Pnarop store their operands as given (no stream is made at '
+              'construction), __stream__ makes NEW operand streams in the call and hands them in operand order to '
+              'the operator stream, and __embed__ (Punop, Pnarop) draws one value from every operand stream per '
+              'pass, each with the pass\'s input value, and yields the selector applied to exactly those values, '
+              'ending quietly with the first exhausted operand. Lifting over functions/streams/lists/operands and '
+              'the values themselves are decided by a bounded run-time '
               'contract driver (all 127 operator methods x operand kinds x forced samples).'),
   level_note=('Trusted: z3/cvc5; floats treated as reals; decimal literals exact; axioms log2(2^y)=y, '
               '2^(log2 x)=x for x>0 (and base 10); scbuiltin wrappers transparent on plain numbers. '
